@@ -132,6 +132,35 @@ var subC08SymSize = harness.NewSub("c08-twcc-symbol-size-field", func(c c08SymSi
 	return nil
 })
 
+// c08HdrCount: TransportLayerCC carries a caller-supplied header; "a header count/subtype above
+// 31 yields an error and no bytes" applies to its 5-bit count like to every other count.
+type c08HdrCount struct {
+	Count uint8
+	P     m.Packet // a TWCC value supplying the content
+}
+
+var subC08HdrCount = harness.NewSub("c08-twcc-header-count", func(c c08HdrCount, _ harness.Dialect) error {
+	pk := conv.ToPion(c.P).(*rtcp.TransportLayerCC)
+	pk.Header.Count = c.Count
+	b, err := safeMarshal(pk)
+	if c.Count > 31 {
+		if err == nil {
+			return fmt.Errorf("TransportLayerCC with Header.Count %d marshalled without error: first octet %#02x (the count field has 5 bits)", c.Count, b[0])
+		}
+		if len(b) != 0 {
+			return fmt.Errorf("TransportLayerCC with Header.Count %d: error %v together with %d bytes", c.Count, err, len(b))
+		}
+		return nil
+	}
+	if err != nil {
+		return fmt.Errorf("TransportLayerCC with Header.Count %d rejected: %v", c.Count, err)
+	}
+	if b[0]&0x1F != c.Count || b[0]>>6 != 2 {
+		return fmt.Errorf("TransportLayerCC with Header.Count %d: first octet %#02x", c.Count, b[0])
+	}
+	return nil
+})
+
 type c08Row struct {
 	Name       string
 	Enumerated bool
@@ -583,6 +612,15 @@ func TestC08(t *testing.T) {
 			}
 		}
 		harness.Sample(subC08SymSize.Name, 9, c08SymSize{SymbolSize: 2, Symbols: []uint16{1, 0, 1}})
+		g := rapid.Custom(func(rt *rapid.T) m.Packet { return gen.PacketOf(rt, m.KTWCC) })
+		for count := 0; count <= 255; count++ {
+			p := g.Example(int(harness.SeedFor(8080)%100000) + count%4)
+			subC08HdrCount.Check(t, c08HdrCount{Count: uint8(count), P: p})
+		}
+		harness.Eval(subC08HdrCount.Name, 256)
+		harness.NonTrivialDistinct(256)
+		harness.Exhaustive(subC08HdrCount.Name, "all 256 values of TransportLayerCC.Header.Count")
+		harness.Sample(subC08HdrCount.Name, 32, map[string]int{"Count": 32})
 	}
 	// boundary probes embedded in fully random D-values are also covered by drawing plain D-values
 	harness.RapidCheck(t, harness.Scale(1500, 12000), 88, func(rt *rapid.T) {
